@@ -551,7 +551,9 @@ impl SetGen<'_> {
 }
 
 fn gen_set(r: &mut Rng) -> Vec<RS> {
-    let n = r.range(2, 5) as usize;
+    // now and then a long chain of inputs: on-demand parsing then nests as deep as the chain is long
+    let long = r.chance(1, 40);
+    let n = if long { r.range(17, 28) as usize } else { r.range(2, 5) as usize };
     let mut g = SetGen { r, known: vec![], counter: 0 };
     // names of the inputs first (so that any input can reference any other)
     let mut tops: Vec<(String, NameStyle)> = vec![];
@@ -568,7 +570,7 @@ fn gen_set(r: &mut Rng) -> Vec<RS> {
     // phase 1: bodies with nested definitions and references to inputs; references to nested
     // definitions of *other* inputs are added in phase 2 when all nested names exist
     let mut inputs: Vec<RS> = vec![];
-    let shape = g.r.below(5); // 0 chain, 1 star, 2 cycle, 3 random, 4 sparse
+    let shape = if long { 0 } else { g.r.below(5) }; // 0 chain, 1 star, 2 cycle, 3 random, 4 sparse
     for i in 0..n {
         let (full, style) = tops[i].clone();
         let ns = split_full(&full).0.map(|s| s.to_string());
@@ -627,7 +629,7 @@ fn gen_set(r: &mut Rng) -> Vec<RS> {
                 fields.push((format!("r{k}"), t));
             }
         }
-        let nn = g.r.below(3) as usize;
+        let nn = if long { g.r.below(8) as usize / 7 } else { g.r.below(3) as usize };
         for k in 0..nn {
             let d = g.nested_def(ns.as_deref(), i);
             let t = match g.r.below(3) {
